@@ -28,6 +28,7 @@ type inst struct {
 	file   string
 	next   *int
 	points *[]string
+	fn     string // the enclosing top-level function: "Name" or "Recv.Name" (receiver type without * and type parameters)
 }
 
 // containsSync reports whether node n (not descending into function literals) performs a synchronisation operation.
@@ -136,11 +137,39 @@ func exprText(e ast.Expr) string {
 	return "_"
 }
 
+// funcName is "Name" for a function and "Recv.Name" for a method (receiver type without pointer and type parameters), so
+// that the users of points.txt can find a point by the function it is in, whichever file that function lives in.
+func funcName(fd *ast.FuncDecl) string {
+	if fd.Recv == nil || len(fd.Recv.List) == 0 {
+		return fd.Name.Name
+	}
+	t := fd.Recv.List[0].Type
+	for {
+		switch v := t.(type) {
+		case *ast.StarExpr:
+			t = v.X
+			continue
+		case *ast.IndexExpr:
+			t = v.X
+			continue
+		case *ast.IndexListExpr:
+			t = v.X
+			continue
+		case *ast.ParenExpr:
+			t = v.X
+			continue
+		case *ast.Ident:
+			return v.Name + "." + fd.Name.Name
+		}
+		return "?." + fd.Name.Name
+	}
+}
+
 func (in *inst) point(pos token.Pos, what string) ast.Stmt {
 	id := *in.next
 	*in.next++
 	p := in.fset.Position(pos)
-	*in.points = append(*in.points, fmt.Sprintf("%d %s:%d %s", id, filepath.Base(p.Filename), p.Line, what))
+	*in.points = append(*in.points, fmt.Sprintf("%d %s:%d %s fn=%s", id, filepath.Base(p.Filename), p.Line, what, in.fn))
 	return &ast.ExprStmt{X: &ast.CallExpr{Fun: ast.NewIdent("verifP"), Args: []ast.Expr{&ast.BasicLit{Kind: token.INT, Value: fmt.Sprint(id)}}}}
 }
 
@@ -238,6 +267,7 @@ func main() {
 		in := &inst{fset: fset, file: f, next: &next, points: &points}
 		for _, d := range af.Decls {
 			if fd, ok := d.(*ast.FuncDecl); ok && fd.Body != nil {
+				in.fn = funcName(fd)
 				fd.Body.List = in.stmts(fd.Body.List)
 			}
 		}
